@@ -1,5 +1,6 @@
 import PcfgVerif.Properties.ExpandCore
 import PcfgVerif.Properties.PQCore
+import PcfgVerif.Lemmas.SoftFloatLemmas
 import PcfgVerif.Generated.PrintSites
 /-!
 # C17 — PRINCE-LING emits the ruleset's words most-probable-first, up to the size asked
@@ -94,6 +95,12 @@ theorem C17_order (A : PAlg P) (g : Grid P) (hwf : WF A.toPOps g) (s : PQState)
 theorem C17_each_once (A : PAlg P) (g : Grid P) (hwf : WF A.toPOps g) (s : PQState)
     (h : Reach A.toPOps g (initNodes g) s) (hq : s.queue = []) : s.popped.Perm (allNodes g) :=
   (pq_exactly_once A g hwf s h).2.2 hq
+
+/-- **binary64 instance** of order and exactly-once for the PRINCE grid (see `C01_order_binary64`) -/
+theorem C17_binary64 (g : Grid Nat) (hwf : WF sfAlg.toPOps g) (s : PQState)
+    (h : Reach sfAlg.toPOps g (initNodes g) s) :
+    NonIncreasing sfAlg.toPOps g s.popped ∧ (s.queue = [] → s.popped.Perm (allNodes g)) :=
+  ⟨C17_order sfAlg g hwf s h, C17_each_once sfAlg g hwf s h⟩
 
 /-- stdout of `prince_ling.py`: the only call site that can write there is `print_guess` -/
 theorem C17_only_print_guess_writes_stdout :
